@@ -29,6 +29,13 @@ class _Violation(Exception):
     pass
 
 
+class _DeadlineReached(BaseException):
+    """Raised from the test body once the soft deadline has passed.  Not an ``Exception``: Hypothesis
+    does not treat it as a failing example (no shrinking, no replay) and it ends the run of the
+    sub-check at once - otherwise the remaining examples would still be *generated*, which for the
+    larger strategies costs more than running them."""
+
+
 def load_module(prop):
     props_dir = ROOT / "props"
     for p in sorted(props_dir.glob(f"{prop.lower()}_*.py")):
@@ -52,7 +59,7 @@ def execute(run, case):
     harness error."""
     try:
         out = run(case)
-    except (KeyboardInterrupt, SystemExit):
+    except (KeyboardInterrupt, SystemExit, _DeadlineReached):
         raise
     except BaseException as e:  # noqa: BLE001
         mod = type(e).__module__ or ""
@@ -182,7 +189,7 @@ class Worker:
                     return  # stop shrinking: every further candidate "passes"
             elif now > self.deadline:
                 stats.inconclusive = True
-                return
+                raise _DeadlineReached()
             case = canonical(case)
             self.note_case(sub.name, case)
             out = execute(sub.run, case)
@@ -209,10 +216,15 @@ class Worker:
             verbosity=Verbosity.quiet,
         )(test)
         test = hypothesis.seed(seed)(test)
+        if time.time() > self.deadline:
+            stats.inconclusive = True
+            return stats
         try:
             test()
         except _Violation:
             pass
+        except _DeadlineReached:
+            stats.inconclusive = True
         except Flaky:
             if state["last"] is None:
                 raise HarnessError("hypothesis reported Flaky without a recorded failure")
@@ -339,15 +351,19 @@ class Worker:
                 known_lines.append({"id": e["id"], "what": e["what"]})
         return stats, known_lines
 
-    def main(self):
+    def main(self, checkpoint=None):
+        """checkpoint(result): called after every finished sub-check, so that a shard that is killed at
+        the wall limit leaves what it has finished behind."""
         if hasattr(self.mod, "setup"):
             self.mod.setup()
-        result = {"shard": self.shard, "subs": [], "known_lines": [], "error": None}
+        result = {"shard": self.shard, "subs": [], "known_lines": [], "error": None, "partial": True}
+        checkpoint = checkpoint or (lambda r: None)
         only = os.environ.get("VERIF_ONLY_SUB")
         if self.shard == 0 and not only:
             st, known = self.replay_saved()
             result["subs"].append(st.to_json())
             result["known_lines"] = known
+            checkpoint(result)
         errors = []
         for en in getattr(self.mod, "ENUMS", []):
             if only and en.name != only:
@@ -359,6 +375,7 @@ class Worker:
                 continue
             if st is not None:
                 result["subs"].append(st.to_json())
+                checkpoint(result)
         subs = list(enumerate(getattr(self.mod, "SUBS", [])))
         # rotate the order per shard: under CPU contention (soft deadline) every
         # sub-check is then still covered by some shards instead of the last ones starving
@@ -374,8 +391,10 @@ class Worker:
                 errors.append(f"[{sub.name}] {e}")
                 continue
             result["subs"].append(st.to_json())
+            checkpoint(result)
         if errors:
             result["error"] = "\n".join(errors)
+        result["partial"] = False
         return result
 
 
@@ -386,7 +405,13 @@ def worker_main(argv):
     result = None
     try:
         w = Worker(prop, int(shard), int(nshards), tier, int(seed), float(deadline), casefile)
-        result = w.main()
+
+        def checkpoint(res):
+            with open(outfile + ".part.tmp", "w") as f:
+                json.dump(res, f)
+            os.replace(outfile + ".part.tmp", outfile + ".part")
+
+        result = w.main(checkpoint)
         code = 2 if result.get("error") else 0
     except HarnessError as e:
         result = {"shard": int(shard), "subs": [], "known_lines": [], "error": str(e)}
